@@ -3,9 +3,9 @@ from common import LEAN_TB
 _IDX = "pkg/apk/apk/index.go:"
 CHECK = {
     "title": "Only repository indexes signed by a trusted key are used",
-    "modules": ["Apko.Proofs.C04"],
-    "suites": [("indexsig", 1500, 30000)],
-    "fact_prefixes": ["index.go"],
+    "modules": ["Apko.Proofs.C04", "Apko.Proofs.C04Glue"],
+    "suites": [("indexsig", 1500, 30000), ("indexsigglue", 1500, 40000)],
+    "fact_prefixes": ["index.go", "indexsig-glue"],
     "hashes": {
         _IDX + "parseRepositoryIndex": "55117eedaf37d53c",
         _IDX + "shouldCheckSignatureForIndex": "68c1a4dfa70445e4",
@@ -16,6 +16,15 @@ CHECK = {
         "pkg/apk/apk/apkindex.go:ParsePackageIndex": "cca2e2047a70ebf1",
         "pkg/apk/apk/repo.go:APK.GetRepositoryIndexes": "bee61c0ccdab380a",
         "pkg/apk/signature/rsa.go:RSAVerifyDigest": "3b2126fcb4fa7dcc",
+        "pkg/apk/apk/implementation.go:APK.ResolveWorld": "97e1b85745d4febd",
+        "pkg/apk/apk/implementation.go:New": "ab4fa4fecfdb0be3",
+        "pkg/build/build.go:New": "14360b8ca276f333",
+        "pkg/build/multi.go:NewMultiArch": "179cbb9c5b9418e7",
+        "pkg/build/multi.go:MultiArch.BuildPackageLists": "19e4fd04350188dc",
+        "pkg/apk/apk/cache.go:cacheTransport.RoundTrip": "0da5558b3b5848ec",
+        "pkg/apk/apk/cache.go:cacheTransport.fetchAndCache": "3ddc6df5fdc031f3",
+        "pkg/apk/apk/cache.go:cacheTransport.fetchOffline": "b789ec84f127625e",
+        "pkg/apk/apk/cache.go:cacheTransport.get": "cc690d24c5b1a19b",
     },
     "budget_quick": 100,
     "level": "proof",
